@@ -169,6 +169,12 @@ class ResultSet(dict[str, dict[Path, list[Result]]]):
             result[k] = list_dict_or(self.get(k, {}), other.get(k, {}))
         return result
 
+    def __ior__(self, other):
+        merged = self | other
+        self.clear()
+        self.update(merged)
+        return self
+
 
 def list_dict_or(
     dictionary: dict[Any, list[Any]], other: dict[Any, list[Any]]
